@@ -45,7 +45,7 @@ counters! {
     probe_bufwriter_flush_failure_after_clean_display, probe_max_safe_integer_component,
     probe_fault_between_list_items, probe_sticky_then_bufwriter_drop,
     // bookkeeping
-    known_finding_hits, violations,
+    known_finding_hits, violations, advisory_reentrancy_observations,
 }
 
 #[derive(Clone, Debug)]
@@ -59,6 +59,8 @@ pub struct Stats {
     pub nontrivial_keys: Vec<u64>,
     /// per-run digest of the event log, xor-folded with the run index (order independent)
     pub log_digest: u64,
+    /// first few advisory observations (runs with re-entrant operations): (class, detail)
+    pub advisory_samples: Vec<(String, String)>,
 }
 
 impl Default for Stats {
@@ -69,6 +71,7 @@ impl Default for Stats {
             crash_pairs: BTreeSet::new(),
             nontrivial_keys: Vec::new(),
             log_digest: 0,
+            advisory_samples: Vec::new(),
         }
     }
 }
@@ -93,6 +96,11 @@ impl Stats {
         self.crash_pairs.extend(other.crash_pairs);
         self.nontrivial_keys.extend(other.nontrivial_keys);
         self.log_digest = self.log_digest.wrapping_add(other.log_digest);
+        for a in other.advisory_samples {
+            if self.advisory_samples.len() < 8 && !self.advisory_samples.iter().any(|x| x.0 == a.0) {
+                self.advisory_samples.push(a);
+            }
+        }
     }
     pub fn distinct_nontrivial(&mut self) -> u64 {
         self.nontrivial_keys.sort_unstable();
